@@ -1,5 +1,5 @@
-(* Executions whose branch is dropped (simulation, CheckTx, an early message of a transaction whose later message
-   fails) leave no trace: a history with such executions interleaved reaches exactly the chain reached by the delivered
+(* Executions whose branch is dropped (simulation, CheckTx, the early messages of a transaction whose later message
+   fails) leave no trace: a history with such branches interleaved reaches exactly the chain reached by the delivered
    steps alone, so every history theorem applies to the delivered subsequence. *)
 From Cctp Require Import Lib.Bytes Lib.SMap.
 From Cctp Require Import Model.State Model.Ledger Model.Handlers Model.Chain.
@@ -7,23 +7,21 @@ From Cctp Require Import Model.State Model.Ledger Model.Handlers Model.Chain.
 Lemma run_modes_cons e c s h : run_modes e c (s :: h) = run_modes e (run_mstep e c s) h.
 Proof. reflexivity. Qed.
 
+Lemma delivered_app h1 h2 : delivered (h1 ++ h2) = delivered h1 ++ delivered h2.
+Proof. induction h1 as [|[s|b] h1 IH]; cbn; [reflexivity| |]; rewrite IH; reflexivity. Qed.
+
 Theorem run_modes_delivered e h : forall c, run_modes e c h = run e c (delivered h).
 Proof.
-  induction h as [|[m s] h IH]; intros c; [reflexivity|].
-  rewrite run_modes_cons. unfold run_mstep. cbn [fst snd]. destruct m.
-  - unfold delivered. cbn [filter fst map snd]. fold (delivered h). rewrite IH. reflexivity.
-  - unfold delivered. cbn [filter fst]. fold (delivered h). apply IH.
+  induction h as [|[s|b] h IH]; intros c; [reflexivity| |].
+  - rewrite run_modes_cons. cbn [run_mstep delivered]. rewrite IH. reflexivity.
+  - rewrite run_modes_cons. cbn [run_mstep delivered]. apply IH.
 Qed.
 
-(* a dropped execution between two delivered histories changes neither the chain reached nor any later result *)
-Theorem discarded_step_is_invisible e c h1 s h2 :
-  run_modes e c (h1 ++ (Discarded, s) :: h2) = run_modes e c (h1 ++ h2).
-Proof.
-  rewrite !run_modes_delivered. unfold delivered. rewrite !filter_app, !map_app. reflexivity.
-Qed.
+(* a dropped branch between two histories changes neither the chain reached nor any later result *)
+Theorem discarded_step_is_invisible e c h1 b h2 :
+  run_modes e c (h1 ++ Dropped b :: h2) = run_modes e c (h1 ++ h2).
+Proof. rewrite !run_modes_delivered, !delivered_app. reflexivity. Qed.
 
-Theorem later_results_ignore_discarded e c h1 s h2 :
-  trace e (run_modes e c (h1 ++ [(Discarded, s)])) h2 = trace e (run_modes e c h1) h2.
-Proof.
-  f_equal. rewrite !run_modes_delivered. unfold delivered. rewrite filter_app, map_app. cbn. rewrite app_nil_r. reflexivity.
-Qed.
+Theorem later_results_ignore_discarded e c h1 b h2 :
+  trace e (run_modes e c (h1 ++ [Dropped b])) h2 = trace e (run_modes e c h1) h2.
+Proof. f_equal. rewrite !run_modes_delivered, delivered_app. cbn. rewrite app_nil_r. reflexivity. Qed.
